@@ -3,4 +3,10 @@ CLAIMS = {
  "C01": {"technique": "runtime round-trip monitor: ASan+UBSan build driven over the exhaustive register-tuple space, bytes judged by two independent decoders against a nasm-validated expectation",
          "text": "Every register-only integer form of the committed spec x every register tuple x option combos is assembled by the real library under ASan+UBSan; each emitted encoding is decoded by LLVM-MC and libopcodes and must read back as the written instruction with length == offset advance. Exhaustive over that finite space in the thorough tier (quick: all tuples under default options + sampled combos). Exploration level: nothing is proved beyond the executed cases.",
          "note": "Trusts LLVM-MC/libopcodes where nasm's own encoding of the same line validates them (per case); CPU semantics not re-checked."},
+ "C02": {"technique": "runtime round-trip monitor over address-shape x instruction-class product (ASan+UBSan build; two decoders; linear-form address comparison; nasm referee)",
+         "text": "Memory operands built structurally (base/index/scale/order/displacement/keyword) for ~60 instruction classes are assembled by the real library under ASan+UBSan in the relevant SIB modes; the ModRM/SIB/displacement bytes must decode (LLVM-MC and libopcodes) to the written base+index*scale as a linear form, sign-extended displacement, address size and access width. Stratified sample in quick, full shape product for the structural classes in thorough. Exploration level.",
+         "note": "Trusts the two decoders where nasm's encoding of the same line validates them; the STRICT stack-pointer-index expectation comes from the header's documented example."},
+ "C04": {"technique": "runtime round-trip monitor, exhaustive over vector/VEX register tuples (ASan+UBSan build; two decoders; nasm referee)",
+         "text": "Every MMX/SSE/AVX/AVX2/BMI2/ADX register-only form of the committed spec x the complete register product (thorough; corners + 5% in quick) is assembled by the real library and must decode back with the same operation, registers, operand size (VEX.W) and vector length (VEX.L). Exhaustive over that finite space in thorough. Memory variants are C02's.",
+         "note": "Trusts LLVM-MC/libopcodes where nasm validates them per case."},
 }
